@@ -45,7 +45,7 @@ REACH_LINES = [
 REQUIRED = {"slicers_built": 100, "apply_1d": 20, "apply_2d": 20, "apply_sparse": 60,
             "apply_ad": 20, "apply_scalar": 20, "apply_transposed": 40, "apply_copy": 20,
             "pending_float": 50, "pending_ad": 50, "pending_sparse_matmul": 40,
-            "chains_len2": 5, "chains_len3": 5, "chains_with_pending_left": 5,
+            "pending_two_alive": 50, "chains_len2": 5, "chains_len3": 5, "chains_with_pending_left": 5,
             "onto_slicers": 10, "explicit_domain_size": 10, "implicit_sizes": 10}
 ASSUMPTIONS = [
     "index maps are injective on both sides (the statement's quantifier)",
@@ -449,6 +449,22 @@ def check(case, mon):
                 _cmp(mon, "pending_matmul", got, want, "pending-left-operand:@",
                      {"target": tname, **tag})
                 mon.count("pending_sparse_matmul")
+
+        # two delayed expressions formed from ONE slicer object, both alive, applied
+        # afterwards in reverse order of creation: each acts like its own explicit matrix
+        # and the slicer itself is left untouched
+        Sx = _mk(spec)
+        b1, b2 = 1.5, 2.25
+        Ad2 = drng.uniform(0.5, 1.5, (nrow, rs)) * (drng.random((nrow, rs)) < 0.7)
+        e1, e2 = b1 * Sx, b2 * Sx
+        m1, m2 = sps.csr_matrix(Ad) @ Sx, sps.csr_matrix(Ad2) @ Sx
+        two = "pending-left-operand:two-alive-on-one-slicer"
+        _cmp(mon, "pending_two_alive", m2 @ x, Ad2 @ (P @ x), two, {"expr": "A2@S", **tag})
+        _cmp(mon, "pending_two_alive", m1 @ x, Ad @ (P @ x), two, {"expr": "A1@S", **tag})
+        _cmp(mon, "pending_two_alive", e2 @ x, b2 * (P @ x), two, {"expr": "b2*S", **tag})
+        _cmp(mon, "pending_two_alive", e1 @ x, b1 * (P @ x), two, {"expr": "b1*S", **tag})
+        _cmp(mon, "pending_two_alive", Sx @ x, P @ x, two, {"expr": "S", **tag})
+        mon.count("pending_two_alive", 5)
 
     # ---------------------------------------------------------- the chain
     if nch >= 2:
